@@ -177,8 +177,15 @@ func workerMain(o *options) int {
 
 	deadline := time.Now().Add(time.Duration(o.budget * float64(time.Second)))
 	// fixed corpus first (seed-independent); shared out between workers
-	if p.Corpus != nil {
-		for i, b := range p.Corpus() {
+	{
+		var corpus []*Bundle
+		if p.Corpus != nil {
+			corpus = p.Corpus()
+		}
+		// committed replay cases of fixed defects and known findings are
+		// ordinary corpus members: fixed ones must pass, known ones must match
+		corpus = append(corpus, loadFindingBundles(o.verif, p.ID)...)
+		for i, b := range corpus {
 			if i%o.workers != o.idx {
 				continue
 			}
@@ -387,6 +394,27 @@ func runMain(o *options) int {
 		return 1
 	}
 	return 0
+}
+
+// loadFindingBundles reads the committed replay cases findings/<ID>-*.json.
+func loadFindingBundles(verif, id string) []*Bundle {
+	files, _ := filepath.Glob(filepath.Join(verif, "findings", id+"-*.json"))
+	sort.Strings(files)
+	var out []*Bundle
+	for _, f := range files {
+		b, err := os.ReadFile(f)
+		if err != nil {
+			infra("cannot read %s: %v", f, err)
+		}
+		var rf replayFile
+		if err := json.Unmarshal(b, &rf); err != nil || rf.Bundle == nil {
+			infra("bad finding file %s: %v", f, err)
+		}
+		rf.Bundle.Prop = id
+		rf.Bundle.Tags = append(rf.Bundle.Tags, "finding:"+strings.TrimSuffix(filepath.Base(f), ".json"))
+		out = append(out, rf.Bundle)
+	}
+	return out
 }
 
 func firstN(s string, n int) string {
